@@ -139,6 +139,49 @@ def check_case(ctx, cs):
                 break
 
 
+def check_edge_pairs(ctx):
+    """pairs at the edge of the domain: a single Bezier span (degree + 1 control points) with a clamped and with an unclamped
+    knot vector; a non-rational (d+1)-dimensional shape and a rational d-dimensional one whose stored arrays coincide"""
+    from geomdl import BSpline, NURBS
+    ctx.full = {"edge_pairs": True}
+    site = "abstract.SplineGeometry.__eq__"
+    P3 = [[0.0, 0.0, 1.0], [1.0, 2.0, 1.0], [3.0, 1.0, 1.0]]
+
+    def crv(cls, pts, kv):
+        c = cls()
+        c.degree = 2
+        if cls is NURBS.Curve:
+            c.ctrlptsw = [list(q) for q in pts]
+        else:
+            c.ctrlpts = [list(q) for q in pts]
+        c.knotvector = list(kv)
+        return c
+
+    def srf(kvv):
+        s_ = BSpline.Surface()
+        s_.degree_u, s_.degree_v = 1, 2
+        s_.set_ctrlpts([[float(i), float(j), float((i * j) % 2)] for i in range(2) for j in range(3)], 2, 3)
+        s_.knotvector_u = [0, 0, 1, 1]
+        s_.knotvector_v = list(kvv)
+        return s_
+    clamped, uniform = [0, 0, 0, 1, 1, 1], [0, 0.2, 0.4, 0.6, 0.8, 1]
+    pairs = [("bezier_span_knots/curve", lambda: (crv(BSpline.Curve, P3, clamped), crv(BSpline.Curve, P3, uniform)), False),
+             ("bezier_span_knots/curve_same", lambda: (crv(BSpline.Curve, P3, uniform), crv(BSpline.Curve, P3, uniform)), True),
+             ("bezier_span_knots/surface_v", lambda: (srf(clamped), srf(uniform)), False),
+             ("rationality_with_equal_arrays", lambda: (crv(BSpline.Curve, P3, clamped), crv(NURBS.Curve, P3, clamped)), False)]
+    for label, mk, want in pairs:
+        small = {"pair": label}
+        tg = ["edge_pair", label]
+        ctx.count(("edge_pair", label), sample=small)
+        try:
+            A, B = mk()
+            res = {"A==B": A == B, "B==A": B == A, "A!=B": A != B}
+            if bool(res["A==B"]) != want or bool(res["B==A"]) != want or bool(res["A!=B"]) == want:
+                ctx.violate(site, tg, small, {"got": res, "expected_equal": want})
+        except Exception as e:
+            ctx.violate(site, tg + ["raises"], small, {"exception": repr(e)[:200]})
+
+
 THEOREMS = ["T_Tracks: the definition of equality separates every single-component perturbation and every kind/rationality twin",
             "T_Symmetric"]
 
@@ -154,6 +197,7 @@ def run(ctx):
         check_case(ctx, cs)
     if len(kinds) < 9:
         raise core.MachineryError("vacuous model: %s" % kinds)
+    check_edge_pairs(ctx)
     ctx.traces = len(res.cases)
     ctx.extra["pairs_by_perturbation"] = kinds
     ctx.rule = "one case per (shape, perturbation); == and != evaluated both ways, plus reflexivity and deep copy"
@@ -161,4 +205,6 @@ def run(ctx):
 
 
 def replay(ctx, v):
+    if "edge_pairs" in v["full"]:
+        return check_edge_pairs(ctx)
     check_case(ctx, v["full"])
